@@ -19,6 +19,10 @@ claimed = {
    text="Seeded histories on a simulated clock (time.Now in cache and all file mtimes are simulated): Put, lookups, clock advances biased to the 24h / 5d / 5d+1h thresholds with jitter, backward clock jumps, Trim, trim-record rewrites (recent/old/future/garbage/empty/missing), foreign files, directly aged files, and model-guided macro steps that place a Trim just before/after a threshold of a chosen entry. Reference retention model: entries used within 5d survive byte-identical; foreign files untouched; nothing removed and record unchanged when a trim completed <24h ago; when due, everything unused for >5d+1h is gone and the record holds the trim time.",
    note="Get counts as a use of the index file only (its doc says so); future-dated trim records are don't-care for the due/not-due clauses; whole-second clock.",
    tech="deterministic simulation: simulated clock and mtimes, seeded histories against a reference retention model"),
+ "C12": dict(cat="fault_enumeration", ref="3 (C12)",
+   text="Fault injection at every file-operation boundary inside Put: a fault-free dry run lists the N operations (and M source-reader calls) of the target Put for a seeded scenario shape (prior entries, overwrite/new/shared output, pre-damaged or trimmed-away output), then operation k fails / writes short then fails / the process halts before, after or in the middle of it, or the reader fails, ends early, changes or grows between passes. After a restart: GetBytes not-found or hash-valid, GetFile size-valid and (undamaged start) content-valid, entries of other ids readable before stay readable, an acknowledged Put reads back, a fault-free retry succeeds. Thorough executes the whole (operation x action) space of a tenth of the shapes to completion and adds a concurrent reader process; shapes are sampled.",
+   note="Process-crash model (halt at an operation boundary or mid-write), no power-loss/lost-write model; single fault per attempt; real SIGKILLs replaced by seed-determined halts.",
+   tech="deterministic simulation with fault injection: per-operation error/short-write/halt and faulty source readers, restart, invariant check"),
 }
 na = {
  "C02": "pure function of the line text and the assignment history: no schedule, clock, fault or second party for a simulator to own",
